@@ -138,11 +138,14 @@ def _arith_pair(a, b):
 # complex numbers
 
 class Cx:
-    __slots__ = ('re', 'im')
+    """re + i*im.  `abs_hint`, when set, is a real term known by construction to equal |self|
+    (set for z**2, where |z**2| = |z|**2 exactly)."""
+    __slots__ = ('re', 'im', 'abs_hint')
 
-    def __init__(self, re, im=0):
+    def __init__(self, re, im=0, abs_hint=None):
         self.re = re
         self.im = im
+        self.abs_hint = abs_hint
 
     def __repr__(self):
         return 'Cx(%s, %s)' % (self.re, self.im)
@@ -327,6 +330,8 @@ def pow_(a, n):
     r = a
     for _ in range(n - 1):
         r = mul(r, a)
+    if isinstance(a, Cx) and n == 2:
+        r.abs_hint = cabs2(a)
     return r
 
 
